@@ -172,6 +172,19 @@ def gen_poly(rng, n, tier):
             pts = pts[::-1]
         q = [rng.uniform(0.1 * L, 0.9 * L), rng.choice([0.55, 0.6, 0.75, 0.9]) * h]
         out.append({'pts': pts, 'q': q, 'edited': False, 'qtrack': rng.choice([None, 'fresh'])})
+    for _ in range(max(20, n // 40)):
+        # projected coordinates (eastings / northings: a large common offset) and a query a few millimetres past a vertex, on the next segment: it is millimetres from
+        # the earlier segment and on the later one.  Distances are differences of nearby large numbers; the tolerance is that of the extent, not of the offset
+        X0, Y0 = rng.choice([(651000.0, 6861000.0), (448250.0, 5411950.0)])
+        k = rng.randint(3, 6)
+        pts = [[X0 + rng.randint(-40, 40), Y0 + rng.randint(-40, 40)]]
+        for _ in range(k - 1):
+            pts.append([pts[-1][0] + rng.choice([1, -1]) * rng.randint(5, 40), pts[-1][1] + rng.randint(-40, 40)])
+        j = rng.randrange(1, k - 1)
+        (ax, ay), (bx, by) = pts[j], pts[j + 1]
+        L = math.hypot(bx - ax, by - ay); d = rng.choice([0.002, 0.004, 0.006, 0.5, 0.0])
+        q = [ax + d * (bx - ax) / L, ay + d * (by - ay) / L]
+        out.append({'pts': pts, 'q': q, 'edited': False, 'qtrack': rng.choice([None, 'fresh']), 'offset': True})
     return out
 
 
@@ -247,6 +260,8 @@ def oracle_poly(case, obs):
         return r
     dmin = min(nearest_exact(s, x, y)[0] for _, s in segs)
     scale = 1 + max(abs(v) for p in pts for v in p)
+    if case.get('offset'):                       # translated data: the scale of the rounding is the extent of the figure (plus what the large coordinates themselves cannot resolve)
+        scale = 1 + max(max(abs(p[0] - pts[0][0]), abs(p[1] - pts[0][1])) for p in pts + [[x, y]]) + 1e-5 * scale
     if abs(obs['d'] - dmin) > 1e-7 * scale:
         return 'proj_polyligne returned distance %r on segment %d but the minimum distance to the polyline is %r' % (obs['d'], i, dmin)
     if 'tmap' in obs and obs['tmap'] != obs['map']:
